@@ -66,9 +66,11 @@ Fixpoint overflow_obj (o : obj) : bool :=
 
 (* ---------- what remains outside the theorem (decidable on the decoded operations) ---------- *)
 
-(* an operator that IS a keyword, or a lone BI: returned only for a malformed token such as "null1" /
-   "BI1" (keyword glued to a regular byte that is no operator character); the re-encoded text is the
-   keyword itself *)
+(* OPEN known finding C14-keyword-residual: an operator that IS a keyword, or a lone BI: returned only
+   for a malformed token such as "null1" / "BI1" / "true" + 0xFF (keyword glued to a regular byte that
+   is no operator character: the keyword parsers of 93a8a25 refuse it, the operator parser takes it);
+   the re-encoded text is the keyword itself, which reads back as an operand (BI: as the beginning of
+   an inline image) *)
 Definition kw_residual (op : operation) : bool :=
   keyword_op (op_operator op) ||
   (match op_operands op with [] => true | _ => false end && bytes_eqb K_BI (op_operator op)).
@@ -81,6 +83,14 @@ Definition image_fits (op : operation) : bool :=
   match op_operands op with [OStream _ c] => (Z.of_nat (length c) <=? i64_max)%Z | _ => true end.
 
 Definition known_dec (op : operation) : bool := kw_residual op || overflow_op op || negb (image_fits op).
+
+(* the same class as a decidable predicate on the INPUT bytes: some operation the input decodes to is
+   in [known_dec].  props/c14.py [classify] mirrors it (keyword residual: on the first decode of the
+   extracted model, which is [decode_content bs], together with the necessary condition on the bytes
+   "null / true / false / BI followed by a regular byte that is no operator character"; overflow: a
+   numeral with a point whose integer digits reach F32_INF_FROM) *)
+Definition known_input (bs : bytes) : bool :=
+  match decode_content bs with DecOk ops => existsb known_dec ops | _ => false end.
 
 (* ---------- generic facts about maps over dictionary values ---------- *)
 
@@ -273,6 +283,18 @@ Section Canon.
         destruct (H op Hop) as [A [B _]]; assumption.
     - rewrite !map_map. apply map_ext_in. intros op Hop. rewrite Forall_forall in H. destruct (H op Hop) as [_ [_ C]]. exact C.
   Qed.
+  (* the same statement with the excluded class as a predicate on the input *)
+  Corollary decode_encode_decode_input bs ops :
+    decode_content bs = DecOk ops -> known_input bs = false ->
+    exists ops2,
+      decode_content (encode_content (map canon_op ops)) = DecOk ops2 /\
+      map canon_op ops2 = map intnorm_op (map canon_op ops).
+  Proof.
+    intros Hdec Hk. apply (decode_encode_decode bs ops Hdec). unfold known_input in Hk. rewrite Hdec in Hk.
+    apply Forall_forall. intros op Hop. destruct (known_dec op) eqn:E; [|reflexivity].
+    assert (Hex : existsb known_dec ops = true) by (apply existsb_exists; exists op; split; assumption).
+    rewrite Hex in Hk. discriminate.
+  Qed.
 End Canon.
 
 (* ---------- the float assumptions are consistent: exact decimal canonicalisation ---------- *)
@@ -425,4 +447,20 @@ Lemma kw_residual_witness :
   decode_content (bs "null1 x") = DecOk [mkop "null" []; mkop "x" [OInt 1]] /\
   known_dec (mkop "null" []) = true /\
   decode_content (encode_content [mkop "null" []; mkop "x" [OInt 1]]) = DecOk [mkop "x" [ONull; OInt 1]].
+Proof. repeat split; vm_compute; reflexivity. Qed.
+
+(* the class on the input: the witnesses of both open findings are inside, and so are the other shapes
+   of the keyword residual (found by the thorough tier as "true" + 0xFF + " cm"; a lone BI glued to a
+   digit re-encodes to "BI", which does not decode at all); a keyword followed by a delimiter or by an
+   operator character, or inside a name / a string, is outside *)
+Lemma known_input_witness :
+  known_input (bs "null1 x") = true /\ known_input overflow_witness = true /\
+  known_input (bs "true" ++ [xff] ++ bs " cm") = true /\
+  decode_content (bs "true" ++ [xff] ++ bs " cm") = DecOk [mkop "true" []] /\
+  decode_content (encode_content [mkop "true" []]) = DecOk [] /\
+  known_input (bs "BI1 ") = true /\ decode_content (bs "BI1 ") = DecOk [mkop "BI" []] /\
+  decode_content (encode_content [mkop "BI" []]) = DecErr /\
+  known_input (bs "1 false.5 x") = true /\
+  known_input (bs "null(a) Tj") = false /\ known_input (bs "true/N nullx") = false /\
+  known_input (bs "/null1 (true2) BI* [false] BIx") = false /\ known_input ex_stream = false.
 Proof. repeat split; vm_compute; reflexivity. Qed.
